@@ -51,6 +51,13 @@ def decorate(t, rnd):
     return t
 
 
+_FN = {}
+
+
+def _call(f, arg):
+    return f(arg)
+
+
 def run(prop, tier):
     logging.disable(logging.WARNING)
     from func_adl import EventDataset
@@ -60,7 +67,13 @@ def run(prop, tier):
     rep.add_tlc(st)
     total = len(lams)
     if plan["keep"] is not None:
-        lams = common.subsample(lams, plan["keep"], salt="c10")
+        # conditionals over a field of a dictionary literal exercise the follower's typing of literals: kept whole
+        def cond_on_dict_field(t):
+            return (t["k"] == "ifexp" and any(c["k"] in ("sub", "attr") and c["a"][0]["k"] == "dict" for c in t["a"][1:])) \
+                or any(cond_on_dict_field(c) for c in t["a"])
+        prio = [x for x in lams if cond_on_dict_field(x)]
+        rest = [x for x in lams if not cond_on_dict_field(x)]
+        lams = prio + common.subsample_stratified(rest, max(0, plan["keep"] - len(prio)), salt="c10")
     fam = {"bfs": {"budget": plan["budget"], "generated": total, "used": len(lams), "exhaustive": len(lams) == total}}
     nrand, rb = plan["rand"]
     rl, st = gen(prop, "rand", rb, simulate=f"num={max(1, nrand // 160)}",
@@ -83,6 +96,13 @@ def run(prop, tier):
         for j, op in enumerate(OPS):
             for k in range(plan["supplies"]):
                 jobs.append((len(jobs), i, op, (i + j + k) % 3))
+    # history independence: everything with a dict literal is replayed a second time in the opposite order
+    # (state that leaks from one query into the next shows up as a refusal / change in one of the two passes)
+    def has_dict(t):
+        return t["k"] == "dict" or any(has_dict(c) for c in t["a"])
+    again = [j for j in jobs if j[3] == 0 and has_dict(lams[j[1]])]
+    for (_, i, op, how) in reversed(again):
+        jobs.append((len(jobs), i, op, how))
     with open(modpath, "w") as f:
         for (jid, i, op, how) in jobs:
             if how == 2:
@@ -94,8 +114,13 @@ def run(prop, tier):
     warnings.filterwarnings("ignore", category=SyntaxWarning)
     spec.loader.exec_module(mod)
 
-    recs = []
-    for (jid, i, op, how) in jobs:
+    def run_jobs(joblist):
+        out = []
+        for (jid, i, op, how) in joblist:
+            out.append(run_job(jid, i, op, how))
+        return out
+
+    def run_job(jid, i, op, how):
         lam = lams[i]
         src = codec.src(lam)
         given = codec.enc(ast.parse(src).body[0].value)
@@ -118,7 +143,48 @@ def run(prop, tier):
         except Exception as e:
             rec["exc"] = type(e).__name__
             rec["msg"] = str(e)[:100]
-        recs.append(rec)
+        return rec
+
+    # The history-independence cases run in two forked children (fresh library state each), one per order, so
+    # that state kept by the library between queries (caches) is seen whichever query comes first.
+    import multiprocessing as mp
+    n_main = len(jobs) - len(again)
+    ctx = mp.get_context("fork")
+    hist_jobs = jobs[n_main:]
+    recs = []
+    def forked(joblist):
+        q = ctx.Queue()
+        pr = ctx.Process(target=lambda: q.put(run_jobs(joblist)))
+        pr.start()
+        res = q.get()
+        pr.join()
+        return res
+    def poisoned(value_src):
+        """a fresh process in which dictionary literals with these key layouts were first seen with this value"""
+        def go():
+            for keys in ("'a': V", "'a': V, 'b': V", "'b': V", "'n': V, 'k': V"):
+                try:
+                    DS().Select("lambda e: {" + keys.replace("V", value_src) + "}")
+                except Exception:
+                    pass
+            return run_jobs(hist_jobs)
+        q = ctx.Queue()
+        pr = ctx.Process(target=lambda: q.put(go()))
+        pr.start()
+        res = q.get()
+        pr.join()
+        return res
+    r1 = forked(hist_jobs)
+    r2 = forked(list(reversed(hist_jobs)))
+    for v in ("'s'", "1", "1.5", "True", "e.x"):
+        r2 = r2 + poisoned(v)
+    recs = run_jobs(jobs[:n_main])
+    recs += r1
+    # second order: same jobs, new ids
+    for r in r2:
+        r = dict(r)
+        r["id"] = len(recs)
+        recs.append(r)
     vrecs = [{k: r[k] for k in ("id", "kind", "op", "in", "out", "exc")} for r in recs]
     verdicts, vst = common.validate(prop, "untyped", "TraceTyped", vrecs, per_shard=500,
                                     verdict_id=lambda v: v["verdict"]["id"])
